@@ -427,6 +427,54 @@ impl WorldB {
                 let target = if self.is_server_addr(dst) { 0 } else { self.slot_of_addr(dst).map(|j| j as u64 + 1).unwrap_or(0) };
                 self.adv_deliver(ix, target, src, obs);
             }
+            K_STALERESP => {
+                // a token holder with two tokens of different lifetimes: it presents the longer-lived one from its address, then
+                // the shorter-lived one from the same address (the half-open entry now belongs to that one), waits until the
+                // shorter one has expired — the longer one has not — and only then answers the challenge it got for the shorter
+                let life = self.cfg.get("expire").max(1);
+                if life > 5 || self.tokens.is_empty() {
+                    return;
+                }
+                let src = self.adv_addr;
+                if self.sessions.values().any(|s| s.addr == src) {
+                    return;
+                }
+                let nids = self.cfg.get("nids").max(1);
+                let connected = self.server.clients_id();
+                let Some(id) = (0..nids).map(|k| 1 + (op.a + k) % nids).find(|id| !connected.contains(id)) else { return };
+                let a = self.issue_token(id, 0, life * 3, 5, 0, 1);
+                let b = self.issue_token(id, 0, life, 5, 0, 1);
+                self.tokens[a].adv_owned = true;
+                self.tokens[b].adv_owned = true;
+                let (long, short) = if self.tokens[a].expire_ts >= self.tokens[b].expire_ts { (a, b) } else { (b, a) };
+                if self.tokens[long].expire_ts < self.tokens[short].expire_ts + 3 {
+                    return;
+                }
+                obs.count("fault.stale_response_after_token_expiry");
+                let dst = self.public[0];
+                let mut buf = [0u8; 1400];
+                for tid in [long, short] {
+                    let pkt = Packet::connection_request_from_token(&self.tokens[tid].token);
+                    let Ok(n) = pkt.encode(&mut buf, self.tokens[tid].token.protocol_id, None) else { return };
+                    let ix = self.adv_record(buf[..n].to_vec(), src, dst, Some(tid), false, obs);
+                    self.deliver_to_server(ix, src, true, obs);
+                }
+                if !self.pend_model.get(&src).map(|p| p.0 == short).unwrap_or(false) {
+                    return;
+                }
+                let Some((tseq, tdata, cid, cinc)) = self.challenges_seen.last().cloned() else { return };
+                let wait_ms = (self.tokens[short].expire_ts * 1000 + 1500).saturating_sub(self.sv_ms);
+                self.tick_server(wait_ms, false, obs);
+                let mut td = [0u8; 300];
+                td.copy_from_slice(&tdata);
+                let pkt = Packet::Response { token_sequence: tseq, token_data: td };
+                let ckey = self.tokens[short].token.client_to_server_key;
+                let Ok(n) = pkt.encode(&mut buf, self.tokens[short].token.protocol_id, Some((1, &ckey))) else { return };
+                obs.count("probe.response_presented_after_its_token_expired");
+                let ix = self.adv_record(buf[..n].to_vec(), src, dst, Some(short), false, obs);
+                self.ledger[ix].challenge_for = Some((cid, cinc));
+                self.deliver_to_server(ix, src, true, obs);
+            }
             K_STALEHS => {
                 // a handshake reply the server once sealed for this client's token (a challenge, a denial from a moment when
                 // the server was full) reaches the client late, when it may long be connected
